@@ -8,6 +8,9 @@
 //       2 stateful running sum                    3 pass-through of its input (ParentInput output binding)
 //       4 captured outer port added to the input  5 no input at all: internal timer only (parent otherwise idle)
 //       6 stateful node with an Unchecked (validity-gate-free) input that writes on every evaluation
+//       7 REF<TS<Int>> boundary fed by the plain input (to-REF adapter outside, de-referencing consumer inside: the
+//         nested node's own input only ticks when the reference changes, so later input ticks reach the child only
+//         through the out-of-band "push" of graph.cpp nested_schedule_node_impl)
 //   symbolic : input script times (first offset >= 0, gaps >= 1 us) and values, the captured port's script,
 //              the internal timer's wake-up deltas (>= 1 us: consecutive smallest steps and gaps), start, window
 //   oracle   : output recorder stream (time, value) of every nested mode == the inlined mode's stream;
@@ -35,10 +38,10 @@
 #define DEPTH 2
 #endif
 #ifndef NDEF
-#define NDEF 7
+#define NDEF 8
 #endif
 #ifndef DEF_MASK
-#define DEF_MASK 0x7f
+#define DEF_MASK 0xff
 #endif
 
 using namespace hk;
@@ -124,6 +127,24 @@ struct G4 { static constexpr auto name = "c09_g_capture";  static Port<TS<Int>> 
 struct G5 { static constexpr auto name = "c09_g_timeronly"; static Port<TS<Int>> compose(Wiring &w) { return wire<MapN>(w, wire<Timer>(w)); } };
 struct G6 { static constexpr auto name = "c09_g_probe";    static Port<TS<Int>> compose(Wiring &w, Port<TS<Int>> x) { return wire<Probe>(w, x); } };
 
+struct G7 { static constexpr auto name = "c09_g_refin";    static Port<TS<Int>> compose(Wiring &w, Port<REF<TS<Int>>> x) { return wire<MapN>(w, x); } };
+
+// ---- G7 (REF boundary) K levels deep: the innermost boundary is REF-typed, outer levels pass the plain port
+template <int K> struct NestR {
+    static constexpr auto name = "c09_nest_ref";
+    static Port<TS<Int>> compose(Wiring &w, Port<TS<Int>> x) {
+        if constexpr (K == 0) {
+            const auto *ref_schema = schema_descriptor<REF<TS<Int>>>::ts_meta();
+            return G7::compose(w, Port<REF<TS<Int>>>{w, graph_wiring_detail::adapt_source_for_input(w, ref_schema, x.erased())});
+        } else if constexpr (K == 1) return c09::nested_fn<G7, TS<Int>, REF<TS<Int>>>::call(w, x);
+        else return c09::nested1<NestR<K - 1>>(w, x);
+    }
+};
+template <int K> struct TopR {
+    static constexpr auto name = "c09_top_ref";
+    static void compose(Wiring &w) { wire<Rec>(w, NestR<K>::compose(w, wire<Src<0>>(w))); }
+};
+
 // ---- G nested K levels deep (K = 0: inlined)
 template <class G, int K> struct Nest1 {
     static constexpr auto name = "c09_nest";
@@ -165,7 +186,8 @@ template <int K> GraphBuilder build_def(int def) {
         case 3: return build_graph<Top1<G3, K, false>>();
         case 4: return build_graph<Top1<G4, K, true>>();
         case 5: return build_graph<Top0<G5, K>>();
-        default: return build_graph<Top1<G6, K, false>>();
+        case 6: return build_graph<Top1<G6, K, false>>();
+        default: return build_graph<TopR<K>>();
     }
 }
 template <int K> struct Builders {
@@ -265,6 +287,7 @@ extern "C" int harness_main() {
     }
     if (def == 3 && I.nout >= 1) verif_reach("pass_through_ticked");
     if (def == 4 && I.nout >= 1) verif_reach("captured_port_ticked");
+    if (def == 7 && I.nout >= 2) verif_reach("ref_boundary_second_tick");
     {
         int nested_evals = 0;
         for (int i = 0; i < g_log[NMODE - 1].n; i++) nested_evals += (g_log[NMODE - 1].ev[i].kind == EV_GRAPH_BEGIN && g_log[NMODE - 1].ev[i].depth > 0);
